@@ -1,11 +1,14 @@
 mod c01;
 mod c07;
+mod c12;
 mod c14;
 mod c17;
 mod common;
 mod corpus;
 mod dwarfref;
 mod e2w;
+mod dapw;
+mod dapx;
 mod e2x;
 mod isession;
 mod reftrace;
@@ -117,6 +120,12 @@ fn run_check(id: &str, tier: Tier) -> i32 {
         "C12" => {
             let mut r = Report::new("C12", tier, "model_checking");
             r.parts.push(sched::part_sched(tier));
+            r.parts.push(c12::part_histories(tier));
+            finish(r)
+        }
+        "C13" => {
+            let mut r = Report::new("C13", tier, "model_checking");
+            r.parts.push(c12::part_c13(tier));
             finish(r)
         }
         "C14" => {
@@ -153,6 +162,7 @@ fn replay(path: &str) -> i32 {
         }
         "sched" => sched::replay(rp),
         "e2e" => e2x::replay(rp),
+        "dap" => dapx::replay(rp),
         e => {
             eprintln!("no replay handler for engine {e:?}");
             2
@@ -164,6 +174,7 @@ fn worker(kind: &str) {
     match kind {
         "sched" => sched::worker(),
         "e2e" => e2w::worker(),
+        "dap" => dapw::worker(),
         "multi" => e2w::multi_worker(),
         "reftrace" => e2x::reftrace_worker(),
         _ => {
